@@ -11,6 +11,7 @@ import (
 	"sort"
 	"strings"
 	"time"
+	"unicode"
 	"unsafe"
 
 	js "github.com/google/jsonschema-go/jsonschema"
@@ -832,8 +833,8 @@ func requiredByTags(t reflect.Type) []string {
 					continue
 				}
 			}
-			if name == "" {
-				name = f.Name
+			if name == "" || !encValidTag(name) {
+				name = f.Name // encoding/json ignores an invalid name but keeps the options
 			}
 			for _, o := range strings.Split(rest, ",") {
 				if o == "omitempty" || o == "omitzero" {
@@ -962,4 +963,19 @@ func valueOutside(v reflect.Value) bool {
 		}
 	}
 	return false
+}
+
+// encValidTag: encoding/json's isValidTag
+func encValidTag(s string) bool {
+	if s == "" {
+		return false
+	}
+	for _, c := range s {
+		switch {
+		case strings.ContainsRune("!#$%&()*+-./:;<=>?@[]^_{|}~ ", c):
+		case !unicode.IsLetter(c) && !unicode.IsDigit(c):
+			return false
+		}
+	}
+	return true
 }
